@@ -1,3 +1,4 @@
+pub mod cliproc;
 pub mod driver;
 pub mod json;
 pub mod prng;
